@@ -1,5 +1,6 @@
 SPECIFICATION GenSpec
 CONSTANT Which = "C18"
+CONSTANT TinyLen = 0
 CONSTANT SmallLen = 0
 CONSTANT AsBuilt = {}
 CONSTANT MaxLen = 3
